@@ -1190,6 +1190,11 @@ class _WireReader:
                 if rdtype == dns.rdatatype.OPT:
                     self.message.opt = dns.rrset.from_rdata(name, ttl, rd)
                 elif rdtype == dns.rdatatype.TSIG:
+                    if ttl != 0:
+                        # RFC 8945 section 4.2: the TTL MUST be 0.  It is part of
+                        # the digested TSIG variables (as the constant 0), so a
+                        # different value on the wire is unauthenticated.
+                        raise BadTSIG
                     trd = cast(dns.rdtypes.ANY.TSIG.TSIG, rd)
                     if self.keyring is None or self.keyring is True:
                         raise UnknownTSIGKey("got signed message without keyring")
